@@ -138,6 +138,7 @@ structure RDArgs where
   ditiReuse : Int := 1
   multiDisp : Int := 1
   exclude : List Int := []
+  excludeBad : Bool := false   -- some excluded well is not an integer (never in the destination range set)
   liquidClass : String := ""
   direction : String := "left_to_right"
   srcRackId : String := ""
@@ -309,7 +310,7 @@ def compileRD (cfg : Cfg) (a : RDArgs) : List Micro :=
   if ¬(a.direction = "left_to_right" ∨ a.direction = "right_to_left") then [.fail .valueErr]
   else
     let dir : Nat := if a.direction = "left_to_right" then 0 else 1
-    if a.exclude.any (fun x => x < a.dstStart.v ∨ a.dstEnd.v < x) then [.fail .valueErr]
+    if a.excludeBad ∨ a.exclude.any (fun x => x < a.dstStart.v ∨ a.dstEnd.v < x) then [.fail .valueErr]
     else
       let sorted := a.exclude.mergeSort (· ≤ ·)
       let anyTip : TipArg := .single (.member (-1))
